@@ -6,7 +6,9 @@ import (
 	"strings"
 
 	"github.com/opsidian/parsley/ast"
+	"github.com/opsidian/parsley/ast/interpreter"
 	"github.com/opsidian/parsley/combinator"
+	"github.com/opsidian/parsley/parser"
 	"github.com/opsidian/parsley/parsley"
 	"github.com/opsidian/parsley/text"
 	"github.com/opsidian/parsley/text/terminal"
@@ -107,6 +109,20 @@ type c10span struct{ s, e int }
 
 // c10simulate: expected outcome of the layout. errText "" = success, "TOKEN" = the token
 // sequence itself is ill-formed at some point (totality only), else the exact error text.
+// c10simulateEnd continues the simulation with LeftTrim(parser.End(), mode) as the last element of the sequence
+// ("the file must end with a line break" is WsSpacesForceNl in front of the end of input)
+func c10simulateEnd(in string, x int, mode int) string {
+	end, errAt, msg := specSkipWs([]byte(in), x, mode)
+	if end != len(in) {
+		return "TOKEN" // End does not match after the run
+	}
+	if errAt >= 0 {
+		l, cl := lineCol(in, errAt)
+		return fmt.Sprintf("failed to parse the input: %s at f:%d:%d", msg, l, cl)
+	}
+	return ""
+}
+
 func c10simulate(in string, toks []c10tok) (errText string, spans []c10span, x int) {
 	c := []byte(in)
 	for _, t := range toks {
@@ -140,9 +156,6 @@ func c10simulate(in string, toks []c10tok) (errText string, spans []c10span, x i
 			e = end
 		}
 		spans = append(spans, c10span{s, e})
-	}
-	if x != len(in) {
-		return "TOKEN", spans, x
 	}
 	return "", spans, x
 }
@@ -244,7 +257,10 @@ func c10exec(j run.Job, a *run.Acc) {
 			ctx2 := parsley.NewContext(parsley.NewFileSet(f2), text.NewReader(f2))
 			d["input"] = in2
 			d["tokens"] = seqToks
-			want, spans, _ := c10simulate(in2, seqToks)
+			want, spans, xe := c10simulate(in2, seqToks)
+			if want == "" && xe != len(in2) {
+				want = "TOKEN"
+			}
 			var node parsley.Node
 			var err error
 			pan := ""
@@ -300,8 +316,21 @@ func c10exec(j run.Job, a *run.Acc) {
 		for _, t := range toks {
 			ps = append(ps, c10parser(t))
 		}
-		want, spans, _ := c10simulate(in, toks)
+		want, spans, xe := c10simulate(in, toks)
+		// a third of the cases end with an explicitly trimmed End instead of Sentence's bare End
+		endMode := -1
+		if run.Hash(in+fmt.Sprint(len(toks)))%3 == 0 {
+			endMode = int(run.Hash(in) % 4)
+		}
+		if want == "" {
+			if endMode >= 0 {
+				want = c10simulateEnd(in, xe, endMode)
+			} else if xe != len(in) {
+				want = "TOKEN"
+			}
+		}
 		d["expected"] = want
+		d["trimmed_end_mode"] = endMode
 		var node parsley.Node
 		var err error
 		pan := ""
@@ -311,8 +340,16 @@ func c10exec(j run.Job, a *run.Acc) {
 					pan = fmt.Sprint(e)
 				}
 			}()
-			node, err = parsley.Parse(ctx, combinator.Sentence(combinator.SeqOf(ps...)))
+			if endMode >= 0 {
+				root := combinator.SeqOf(combinator.SeqOf(ps...), text.LeftTrim(parser.End(), text.WsMode(endMode))).Bind(interpreter.Select(0))
+				node, err = parsley.Parse(ctx, root)
+			} else {
+				node, err = parsley.Parse(ctx, combinator.Sentence(combinator.SeqOf(ps...)))
+			}
 		}()
+		if endMode >= 0 {
+			a.Count("cases ending with a trimmed End", 1)
+		}
 		if err != nil {
 			d["error"] = err.Error()
 		}
